@@ -304,6 +304,8 @@ func (p c08Policy) String() string {
 		return fmt.Sprintf("swap(victim#%d,parity=%d)", p.Victim, p.Parity)
 	case "late":
 		return fmt.Sprintf("late(victim#%d)", p.Victim)
+	case "lag":
+		return fmt.Sprintf("lag(victim#%d gets the first-phase messages %dms late)", p.Victim, p.Parity*100+20)
 	}
 	return p.Name
 }
@@ -353,7 +355,20 @@ func (l *c08Live) handOver(p *c08Port, m *c08Msg, raw []byte) {
 	}
 	cp := l.copyFor(m, raw)
 	k := c08Phase(m.typ)
-	if l.policy.Name == "swap" && p.member == l.victim && m.sender != p.member && k >= 1 && k < len(c08Types) && k%2 == l.policy.Parity {
+	if l.policy.Name == "lag" && p.member == l.victim && m.sender != p.member && k == 1 {
+		// the victim gets the first-phase messages of the others late (Parity*100+20 ms):
+		// it completes the first exchange one or more transition check intervals after
+		// them, so their round-one messages reach it while it sits in an earlier state -
+		// for one of the delays in the message-less symmetric key state, whose window is
+		// one check interval long
+		delay := time.Duration(l.policy.Parity*100+20) * time.Millisecond
+		go func() {
+			time.Sleep(delay)
+			l.mu.Lock()
+			defer l.mu.Unlock()
+			deliver(cp)
+		}()
+	} else if l.policy.Name == "swap" && p.member == l.victim && m.sender != p.member && k >= 1 && k < len(c08Types) && k%2 == l.policy.Parity {
 		p.held = append(p.held, cp)
 	} else {
 		deliver(cp)
@@ -476,7 +491,7 @@ func c08Sign(r *vrep.R, cs c08Case, signers []*signer, honestThreshold int, time
 	}
 	live := &c08Live{policy: cs.Policy, others: len(cs.Subset) - 1, unmarshalers: map[string]func() net.TaggedUnmarshaler{},
 		firstSenders: map[group.MemberIndex]bool{}}
-	if cs.Policy.Name == "swap" || cs.Policy.Name == "late" {
+	if cs.Policy.Name == "swap" || cs.Policy.Name == "late" || cs.Policy.Name == "lag" {
 		live.victim = group.MemberIndex(cs.Subset[cs.Policy.Victim%len(cs.Subset)])
 	}
 	ctx, cancel := context.WithTimeout(context.Background(), timeout)
@@ -842,7 +857,8 @@ func TestVerifC08Sign(t *testing.T) {
 						c08Policy{Name: "dup"},
 						c08Policy{Name: "swap", Victim: (si + mi) % w.cfg.H, Parity: 1},
 						c08Policy{Name: "swap", Victim: (si + mi + 1) % w.cfg.H, Parity: 0},
-						c08Policy{Name: "late", Victim: (si + 2*mi) % w.cfg.H})
+						c08Policy{Name: "late", Victim: (si + 2*mi) % w.cfg.H},
+						c08Policy{Name: "lag", Victim: (si + mi) % w.cfg.H, Parity: 1 + (si+mi)%4})
 				} else {
 					// quick: every subset signs one message; message and policy rotate
 					if mi != si%len(msgs) {
@@ -851,12 +867,17 @@ func TestVerifC08Sign(t *testing.T) {
 					if w.fixture && si > 2 {
 						continue
 					}
+					if w.fixture && si == 1 {
+						pols = []c08Policy{{Name: "lag", Victim: 1, Parity: 1}, {Name: "lag", Victim: 1, Parity: 2}, {Name: "lag", Victim: 1, Parity: 3}, {Name: "lag", Victim: 1, Parity: 4}}
+					}
 					if !w.fixture {
 						switch (si + len(signers)) % 3 {
 						case 1:
 							pols = []c08Policy{{Name: "swap", Victim: 1, Parity: 1}}
 						case 2:
 							pols = []c08Policy{{Name: "late", Victim: 0}}
+						case 0:
+							pols = []c08Policy{{Name: "lag", Victim: si % w.cfg.H, Parity: 1 + si%4}}
 						}
 					}
 				}
